@@ -148,7 +148,7 @@ Theorem C11_burn_disabled_token_pays_nothing : forall ts p outs, withdraw_coins 
 Proof. exact burn_disabled_token_pays_nothing. Qed.
 Print Assumptions C11_burn_disabled_token_pays_nothing.
 
-(* Backing over histories: over EVERY history of mints and multi-pair swaps by anybody, edit proposals
+(* Backing over histories on the CURRENT code (burns excluded, see the refutation below): over EVERY history of mints and multi-pair swaps by anybody, edit proposals
    (positive weights, fee in [0,1]), switches, the slash / raise hooks as they are, and end blocks,
    the supply exceeds the reserves valued at the weights by at most what it did at the start plus
    the accumulated rounding slack of the swaps (w_out/(2*10^18) + 1 scaled units per pair); the
@@ -157,6 +157,37 @@ Theorem C11_backed_over_histories : forall v ops s, Forall (op_okB v) ops -> Inv
   InvB (run v s ops) /\ gap (run v s ops) <= Z.max (gap s) 0 + run_slack v s ops.
 Proof. exact backed_over_histories. Qed.
 Print Assumptions C11_backed_over_histories.
+(* The backing invariant at full strength, in the form the property states it ("the supply never exceeds
+   the reserves valued at the basket weights"): over EVERY history -- mints, burns (portion taken of the
+   supply before the burn), multi-pair swaps, edit / create / withdraw-surplus proposals, switches,
+   hooks, end blocks, genesis round trips -- supply * 10^18 - sum(weight_i * reserve_i) stays below its
+   starting value (<= 0 for a backed basket) plus the rounding slack: w_out/(2*10^18)+1 per swap pair,
+   value/(2*10^18)+1 per burn (scaled units, i.e. less than 10^-18 of the value moved).  No slash
+   loss appears because the slash hook changes no weight on this tree.  [burns_guarded]: the bank
+   never lets a holder own more of a token than its supply. *)
+Theorem C11_backed_over_all_histories : forall v ops s, Forall (op_okF v) ops -> burns_guarded v s ops -> InvF s ->
+  InvF (run v s ops) /\ gap (run v s ops) <= Z.max (gap s) 0 + run_slackF v s ops.
+Proof. exact backed_over_all_histories. Qed.
+Print Assumptions C11_backed_over_all_histories.
+Theorem C11_burn_keeps_backing_repaired : forall v s now a d x s', v_burn_pre v = true -> burn v s now a d x = Ok s' ->
+  NoDup (denoms (b_tokens (s_bk s))) -> weights_all_pos (b_tokens (s_bk s)) -> reserves_nonneg (b_tokens (s_bk s)) ->
+  0 < s_supply s -> x <= s_supply s -> gap s' <= Z.max (gap s) 0 + burn_slack s.
+Proof. exact burn_keeps_backing_repaired. Qed.
+Print Assumptions C11_burn_keeps_backing_repaired.
+Example C11_repaired_admits_burns_and_edits : forall new, fee_ok new -> weights_all_pos (b_tokens new) ->
+  op_okF repaired (OBurn 0 1 0 5) /\ op_okF repaired (OEdit new) /\ op_okF repaired (OWithdraw [2; 2] 1 []) /\ op_okF repaired OGenesis.
+Proof. intros new H1 H2. split; [reflexivity|]. split; [split; assumption|]. split; exact I. Qed.
+
+(* chk_sound: the spec checker's [books] and [backed] clauses never fire on a run of the model, for ALL
+   operation lists, at every step, whatever observations represent the states before and after it *)
+Theorem C11_chk_sound_books_backed : forall v l o s pre p,
+  Forall (op_okE v) (l ++ [o]) -> Forall (op_okF v) (l ++ [o]) -> burns_guarded v s (l ++ [o]) ->
+  InvE s -> InvF s ->
+  represents (run v s l) pre -> represents (run v s (l ++ [o])) p -> well_listed p ->
+  books_step pre p = true /\ deficit p <= deficit pre + allowance o pre p.
+Proof. exact chk_sound_books_backed. Qed.
+Print Assumptions C11_chk_sound_books_backed.
+
 (* per operation: minting never widens the gap, an accepted edit closes it *)
 Theorem C11_mint_keeps_backing : forall s now a dep s', mint s now a dep = Ok s' -> gap s' <= gap s.
 Proof. exact mint_keeps_backing. Qed.
